@@ -425,6 +425,12 @@ impl Pair {
                         // opened connection to LISTEN (the stack's listen binding stays)
                         self.sides[side].listening = true;
                         self.sides[side].returned_to_listen += 1;
+                        // what the application wrote into the aborted incarnation is gone with it
+                        // (RFC: the retransmission queue is flushed, the user need not be informed)
+                        self.sides[side].submitted.clear();
+                        self.sides[side].close_called = false;
+                        self.sides[side].submitted_at_close = 0;
+                        self.sides[side].max_data_end = None;
                     } else {
                         self.sides[side].released = true;
                     }
